@@ -1,7 +1,8 @@
 (* C06 — no input text can crash the library.  Property theorems only. *)
 From Coq Require Import List.
 From Exmex.Model Require Import Base Lexer Flat Deep Convert.
-From Exmex.Proofs Require Import Totality FlatTotal DeepTotal CompileCorrect ConvertCompose.
+From Exmex.Spec Require Import RefSem.
+From Exmex.Proofs Require Import Totality FlatTotal DeepTotal CompileCorrect ConvertCompose ParseAny Unparse.
 
 (* In the model every panic site of the Rust code (index out of bounds, unwrap on None, usize underflow) is an explicit
    `Panic site` outcome.  The theorems say that no text reaches one. *)
@@ -35,7 +36,35 @@ Theorem C06_deep_parse_never_panics :
   parse_deep C tb is_literal text <> Panic site.
 Proof. exact @parse_deep_no_panic. Qed.
 
-(* `_partial` in the names above and outside these theorems: conversion, unparse, operator listings and partial of
+(* 5. what the deep parser returns for ANY text it accepts (also sloppy input): the parser consumed every token, the
+   expression lists exactly the variables of the text, is index-consistent with that list at every level (deep_ok), and
+   therefore evaluates to a value on every slice of the right length, converts to the flat form and prints -- none of
+   the index operations and unwraps of these follow-up operations can panic on it *)
+Theorem C06_parsed_deep_expressions_are_consistent :
+  forall (D : Type) (C : carrier D) (tb : optable) (ts : list (token D)) (e : deepex D),
+  parse_deep_tokens C tb ts = Ok e -> dvars e = find_parsed_vars ts /\ deep_ok tb e.
+Proof. intros D C tb ts e H. split; [exact (proj1 (parsed_any C tb ts e H))|exact (parsed_any_deep_ok C tb ts e H)]. Qed.
+Theorem C06_parsed_deep_expressions_evaluate_convert_and_print :
+  forall (D : Type) (C : carrier D) (tb : optable), wf_table tb = true ->
+  forall (is_literal : str -> option nat) (text : str) (e : deepex D),
+  parse_deep C tb is_literal text = Ok e ->
+  (forall vals : list D, length vals = length (dvars e) -> exists v, eval_deep C e vals = Ok v) /\
+  (exists fx, from_deepex C tb true e = Ok fx /\ fvars fx = dvars e) /\
+  (exists s, unparse C tb e = Some s).
+Proof.
+  intros D C tb Hwf is_literal text e H. unfold parse_deep in H.
+  destruct (tokenize C tb is_literal text) as [ts| |]; cbn [bind] in H; try discriminate.
+  set (T := fun _ _ : D => True).
+  split; [|split].
+  - intros vals Hl.
+    destruct (parsed_any_evaluates C tb T (fun _ => I) (fun _ _ _ => I) (fun _ _ _ _ _ => I) (fun _ _ _ _ _ _ _ => I) (fun _ _ _ _ => I) (fun _ _ _ _ _ => I) ts e vals H Hl) as (v & Hv & _).
+    exists v. exact Hv.
+  - destruct (deep_to_flat C tb Hwf T (fun _ => I) (fun _ _ _ => I) (fun _ _ _ _ _ => I) (fun _ _ _ _ _ _ _ => I) (fun _ _ _ _ => I) (fun _ _ _ _ _ => I) e (parsed_any_deep_ok C tb ts e H))
+      as (fx & Hf & _ & Hv & _). exists fx. split; assumption.
+  - destruct (parsed_any C tb ts e H) as (_ & Hw & _). exists (render C tb (utoks e)). exact (unparse_is_render C tb _ _ _ e Hw).
+Qed.
+
+(* `_partial` in the names above and outside these theorems: operator listings and partial of
    SLOPPY parsed expressions (for well-formed trees and for every flat expression the parser accepts the conversions
    are in C03's theorems), the value-typed and statement entry points, and stack depth, which is a runtime fact
    (child processes with an 8 MiB stack, DESIGN.md C06, known finding F10).  All of them are exercised by the
@@ -45,3 +74,5 @@ Print Assumptions C06_preconditions_total_partial.
 Print Assumptions C06_flat_parse_never_panics.
 Print Assumptions C06_parsed_flat_expressions_evaluate.
 Print Assumptions C06_deep_parse_never_panics.
+Print Assumptions C06_parsed_deep_expressions_are_consistent.
+Print Assumptions C06_parsed_deep_expressions_evaluate_convert_and_print.
